@@ -66,6 +66,7 @@ type Solver struct {
 	log       strings.Builder // declarations and definitions (for stand-alone dumps)
 	Stats     QueryStats
 	lastDump  string
+	skipFallback bool
 	stack     []*Term // assertions currently on the solver's stack, one push level each
 	pending   strings.Builder
 }
@@ -496,7 +497,7 @@ var traceQueries = os.Getenv("GOSMT_TRACE") != ""
 
 // fallbackTxt runs the other solvers one-shot on a stand-alone dump.
 func (s *Solver) fallbackTxt(ctx *Ctx, txt string, wantModel bool, evals []*Term) (string, map[string]uint64, []uint64) {
-	if disableFallback {
+	if disableFallback || s.skipFallback {
 		s.Stats.Unknown++
 		return "unknown", nil, nil
 	}
